@@ -100,6 +100,55 @@ def run(ctx):
         ctx.run_case(sweep, it)
     ctx.sample({"byte_sweep_item": ["ACGTEncoding", 97, "str"], "means": "encode 'a' with ACGTEncoding via as_encoded_array(str)"})
 
+    # ---------------- A2. characters beyond one byte, and the same text encoded again after the first result was edited --------
+    def non_ascii(item):
+        name, enc, cp, route = item
+        alphabet = [c.upper() for c in enc.get_alphabet()]
+        ch = chr(cp)
+        try:
+            if route == "str":
+                res = bnp.as_encoded_array(alphabet[0] + ch + alphabet[-1], enc)
+            elif route == "list":
+                res = bnp.as_encoded_array([ch + alphabet[0] * 2, "", alphabet[-1] + alphabet[0]], enc)
+            else:
+                res = enc.encode(alphabet[0] + ch)
+            outcome = "accepted"
+        except Exception as e:
+            outcome = type(e).__name__
+        ctx.count("non_ascii_sweep")
+        if outcome == "accepted":
+            ctx.check("reject-foreign", False, "foreign-accepted:code-point-beyond-ascii:%s" % route, "U+%04X is not in the alphabet of %s but text containing it was accepted as %r" % (cp, name, decode_text(res)),
+                      {"encoding": name, "code_point": cp, "route": route, "decoded": decode_text(res)}, (name, route, cp))
+        else:
+            ctx.judged("reject-foreign", (name, route, cp))
+
+    def encode_again(item):
+        name, enc = item
+        alphabet = [c for c in enc.get_alphabet()]
+        for text in (alphabet[0], "".join(alphabet[:3]), "".join(alphabet[:2]).lower() if alphabet[0].isalpha() else "".join(alphabet[:2])):
+            for route in ("as_encoded_array", "encode"):
+                mkx = (lambda: bnp.as_encoded_array(text, enc)) if route == "as_encoded_array" else (lambda: enc.encode(text))
+                first = mkx()
+                want = "".join(decode_text(first))
+                try:
+                    first[0] = alphabet[-1]          # the caller edits its own array
+                except Exception:
+                    pass
+                second = "".join(decode_text(mkx()))
+                ctx.check("decode(encode)=upper", second == text.upper() and want == text.upper(), "roundtrip-differs-after-an-earlier-result-was-edited:%s" % route, "%s of %r gave %r after the first result had been edited in place" % (route, text, second),
+                          {"encoding": name, "text": text, "route": route, "got": second}, (name, text, route, "again"))
+
+    na_items = []
+    for (n, e) in encs:
+        al = [c.upper() for c in e.get_alphabet()]
+        for cp in sorted({128, 200, 233, 255, 256 + ord(al[0]), 256 + ord(al[-1]), 512 + ord(al[0]), 0x263A, 0x1F600, 65536 + ord(al[0])}):
+            for route in ("str", "list", "encode"):
+                na_items.append((n, e, cp, route))
+    for it in ctx.mine(na_items):
+        ctx.run_case(non_ascii, it)
+    for it in ctx.mine(list(encs)):
+        ctx.run_case(encode_again, it)
+
     # ---------------- B. foreign byte injected at every position of a valid string/list --------
     def inject(item):
         name, enc, base, pos, b, as_list = item
